@@ -773,10 +773,17 @@ def clip(a, a_min=None, a_max=None, out=None, out_like=None, sizing='optimal', m
 
         return _rescale_raw(utils.clip(x.val, val_min=val_min, val_max=val_max), n_frac - x.n_frac, n_frac)
 
+    def _clip_repr(x_val, a_min=None, a_max=None, **kwargs):
+        # on the value path fixed-point bounds count by their value (handed to np.clip as they are, they would send the call
+        # back here with the values of `a` as a bare array, re-sized from the data alone)
+        a_min = a_min.get_val() if isinstance(a_min, Fxp) else a_min
+        a_max = a_max.get_val() if isinstance(a_max, Fxp) else a_max
+        return np.clip(x_val, a_min, a_max, **kwargs)
+
     # (np.clip names its bounds `min` and `max` since NumPy 2.1)
     kwargs['a_min'] = kwargs.pop('min', a_min)
     kwargs['a_max'] = kwargs.pop('max', a_max)
-    return _function_over_one_var(repr_func=np.clip, raw_func=_clip_raw, x=a, out=out, out_like=out_like, sizing=sizing, method=method, **kwargs)
+    return _function_over_one_var(repr_func=_clip_repr, raw_func=_clip_raw, x=a, out=out, out_like=out_like, sizing=sizing, method=method, **kwargs)
 
 @implements(np.diagonal)
 def diagonal(a, offset=0, axis1=0, axis2=1, out=None, out_like=None, sizing='optimal', method='raw', **kwargs):
